@@ -208,6 +208,15 @@ def c10(res):
             where = {"op": rec["n"], "call": rec["op"], "changed": what}
             if rec["op"] == "param":
                 where["group"] = t[1]; where["name"] = t[2]
+            else:
+                # which of the text / scaling parameters that updateParameters rewrites does the object lack (they are optional in a file)
+                lacks = []
+                for gname, names in ((b"POINT", (b"DESCRIPTIONS", b"UNITS")), (b"ANALOG", (b"DESCRIPTIONS", b"SCALE", b"OFFSET", b"UNITS"))):
+                    G = [x for x in prev["groups"] if x["name"] == "x" + gname.hex()]
+                    if G:
+                        have = [P["name"] for P in G[0]["params"]]
+                        lacks += [(gname + b":" + n).decode() for n in names if "x" + n.hex() not in have]
+                where["lacks"] = ",".join(x.split(":")[0] for x in lacks[:1]) if lacks else "-"
             out.append(("unchanged_after_throw", where, "a refused %s call changed the object's %s" % (rec["op"], what)))
     return out
 
@@ -375,6 +384,21 @@ def c09(res):
             # every other group unchanged (mandatory POINT/ANALOG values may not change through this call either)
             for i, (a, b) in enumerate(zip(d["groups"], prev["groups"])):
                 if i != gi and a != b: out.append(("other_groups_unchanged", {"op": rec["n"], "group": i}, "another group changed")); break
+        elif rec["op"] == "paramself":
+            # a STORED parameter handed back by reference: stored into <dst> like any other parameter, and nothing else moves
+            sg, sp, dg = t[1], t[2], t[3]
+            names = [G["name"] for G in prev["groups"]]
+            src = [P for P in prev["groups"][names.index(sg)]["params"] if P["name"] == sp] if sg in names else []
+            if not src: continue
+            exp = [dict(G, params=list(G["params"])) for G in prev["groups"]]
+            if dg in names:
+                tgt = exp[names.index(dg)]; pn = [q["name"] for q in tgt["params"]]
+                if sp in pn: tgt["params"][pn.index(sp)] = src[0]
+                else: tgt["params"].append(src[0])
+                if exp != d["groups"]:
+                    out.append(("stored_parameter_handed_back", {"op": rec["n"], "same_group": sg == dg}, "c3d::parameter(%s, <the stored %s:%s>) changed more than that one parameter (or lost it)" % (unx(dg), unx(sg), unx(sp))))
+            elif [G["name"] for G in d["groups"]] != names + [dg] or d["groups"][:-1] != prev["groups"] or d["groups"][-1]["params"] != [src[0]]:
+                out.append(("stored_parameter_handed_back", {"op": rec["n"], "same_group": False}, "c3d::parameter(<new group>, <a stored parameter>) did not append a group holding exactly that parameter"))
         elif rec["op"] in ("lock", "unlock"):
             exp = [dict(G) for G in prev["groups"]]
             names = [G["name"] for G in exp]
@@ -526,7 +550,7 @@ def c08(res):
 
 # ================================================================ file-level oracles (C01 C03 C04 C02)
 def parse_spec(lines):
-    s = {"groups": [], "params": [], "frames": []}
+    s = {"groups": [], "params": [], "frames": [], "assembled": []}
     curf = None
     for l in lines:
         t = l.split(" ")
@@ -539,6 +563,10 @@ def parse_spec(lines):
         elif k == "SP": s["prologue"] = [int(x) for x in t[1].split(",")]; s["terminated"] = t[2] == "1"; s["paramEnd"] = int(t[3])
         elif k == "SG": s["groups"].append({"gid": int(t[1]), "name": t[2], "locked": t[3], "desc": t[4]})
         elif k == "SQ": s["params"].append({"gid": int(t[1]), "name": t[2], "locked": t[3], "type": t[4],
+                                            "dims": [] if t[5] == "-" else [int(x) for x in t[5].split(",")],
+                                            "vals": [] if t[6] == "-" else t[6].split(","), "desc": t[7]})
+        elif k == "AG": s["assembled"].append({"name": t[2], "locked": t[3], "desc": t[4], "params": []})
+        elif k == "AQ": s["assembled"][int(t[1])]["params"].append({"name": t[2], "locked": t[3], "type": t[4],
                                             "dims": [] if t[5] == "-" else [int(x) for x in t[5].split(",")],
                                             "vals": [] if t[6] == "-" else t[6].split(","), "desc": t[7]})
         elif k == "SN": s["nframes"] = int(t[1]); s["left"] = int(t[2])
@@ -732,34 +760,22 @@ def c02_compare(d, spec):
             F("header_frame_range", "frame range: library %s..%s (0-based), file %s..%s (1-based)" % (h["firstFrame"], h["lastFrame"], H["first"], H["last"]))
     if d["HT"] != spec["evTimes"] or [str(x) for x in d["HD"]] != [str(x) for x in spec["evDisplay"]] or d["HL"] != spec["evLabels"]:
         F("header_events", "event times/display flags/labels differ")
-    # groups by id
-    for g in spec["groups"]:
-        i = g["gid"] - 1
-        if i >= len(d["groups"]): F("groups", "group id %d missing in the library (%d groups)" % (g["gid"], len(d["groups"]))); break
-        G = d["groups"][i]
-        if (G["name"], G["locked"], G["desc"]) != (g["name"], g["locked"], g["desc"]):
-            F("groups", "group id %d: library (%s,%s,%s) file (%s,%s,%s)" % (g["gid"], G["name"], G["locked"], G["desc"], g["name"], g["locked"], g["desc"])); break
-    named = set(g["gid"] for g in spec["groups"])
-    for i, G in enumerate(d["groups"]):
-        if G["name"] != "x" and (i + 1) not in named: F("groups", "library has a group at id %d that the file does not define" % (i + 1)); break
-    # parameters per group id, in file order (a repeated name replaces the earlier one in place)
-    for gid in sorted(set(p["gid"] for p in spec["params"])):
-        want = []
-        for p in spec["params"]:
-            if p["gid"] != gid: continue
-            q = {"name": p["name"], "locked": p["locked"], "type": p["type"], "dims": p["dims"] if p["dims"] else [1], "vals": p["vals"], "desc": p["desc"]}
-            names = [w["name"] for w in want]
-            if q["name"] in names: want[names.index(q["name"])] = q
-            else: want.append(q)
-        got = d["groups"][gid - 1]["params"] if gid - 1 < len(d["groups"]) else []
-        got = [{k: P[k] for k in ("name", "locked", "type", "dims", "vals", "desc")} for P in got]
+    # the group table: `Spec.assemble` of the decoder's flat record lists (Lean, Spec/Assemble.lean; C02.loaded_table_is_assembled
+    # proves the model's loader builds exactly this) against the library's table, position by position
+    A = spec["assembled"]
+    if len(A) != len(d["groups"]): F("groups", "the library holds %d groups, the file's records present %d (ids 1..%d)" % (len(d["groups"]), len(A), len(A)))
+    for i, (G, a) in enumerate(zip(d["groups"], A)):
+        if (G["name"], G["locked"], G["desc"]) != (a["name"], a["locked"], a["desc"]):
+            F("groups", "group id %d: library (%s,%s,%s) file (%s,%s,%s)" % (i + 1, G["name"], G["locked"], G["desc"], a["name"], a["locked"], a["desc"])); break
+        want = [{"name": p["name"], "locked": p["locked"], "type": p["type"], "dims": p["dims"] if p["dims"] else [1], "vals": p["vals"], "desc": p["desc"]} for p in a["params"]]
+        got = [{k: P[k] for k in ("name", "locked", "type", "dims", "vals", "desc")} for P in G["params"]]
         if want != got:
-            for a, b in zip(want, got):
-                if a != b:
-                    what = [k for k in a if a[k] != b[k]]
-                    F("parameters", "parameter %s of group id %d differs in %s: file %s / library %s" % (a["name"], gid, what, {k: a[k] for k in what}, {k: b[k] for k in what}), what=",".join(what), type=a["type"], ndims=len(a["dims"]))
+            for x, y in zip(want, got):
+                if x != y:
+                    what = [k for k in x if x[k] != y[k]]
+                    F("parameters", "parameter %s of group id %d differs in %s: file %s / library %s" % (x["name"], i + 1, what, {k: x[k] for k in what}, {k: y[k] for k in what}), what=",".join(what), type=x["type"], ndims=len(x["dims"]))
                     break
-            else: F("parameters", "group id %d: %d parameters in the file, %d in the library" % (gid, len(want), len(got)))
+            else: F("parameters", "group id %d: %d parameters in the file, %d in the library" % (i + 1, len(want), len(got)))
             break
     # frames: values, positional names with the unlabeled fall-back
     lab = gp(b"POINT", b"LABELS"); alab = gp(b"ANALOG", b"LABELS")
